@@ -254,6 +254,19 @@ def main():
     chk.sample({"x": "09 04 01 34 35 36", "s": "37", "expected": "rest 1, value 456.0"})
     rig_r(chk, a.tier, a.seed)
     rig_p(chk, a.tier, a.seed)
+    if a.tier == "thorough":
+        rng = random.Random(a.seed)
+        seeds = []
+        for i in range(200):
+            name, x, cls, kind = gen_elem(rng)
+            names = ["bool", "int", "null", "octetstring", "oid", "objectdescriptor", "real", "ipaddress", "counter32", "gauge32", "timeticks",
+                     "uinteger32", "counter64", "opaque", "relativeoid", "sequence", "option", "value"]
+            seeds.append(bytes([names.index(name)]) + x + rng.choice(suffixes(rng, kind)))
+        r = runner.run_fuzz("fuzz_extent", 6000000, a.seed, seeds=seeds, max_len=300)
+        chk.extra["fuzz_extent"] = {"execs": r["execs"], "crashes": len(r["crashes"])}
+        chk.seen(r["execs"])
+        for sig, art, se in r["crashes"]:
+            chk.violation("fuzz:" + sig, "libFuzzer fuzz_extent: input %s : %s" % (art[:160], se[-400:].replace("\n", " | ")), {"input": art})
     sys.exit(chk.finish())
 
 
